@@ -52,6 +52,12 @@ theorem sorted_ext {α : Type} {t t' : AL α} (hs : Sorted t) (hs' : Sorted t')
             lookup_none_of_lt (fun e he => by have := h1' e he; simpa using this)]
       · have := h j; simpa [lookup, hj] using this
 
+theorem lookup_insertAll_olookup {α : Type} (es : AL α) (t : AL α) (k : Key) (hs : Sorted es) :
+    lookup (insertAll t es) k = olookup es t k := by
+  rw [lookup_insertAll_sorted _ _ _ hs]
+  unfold olookup
+  cases lookup es k <;> rfl
+
 namespace Redb
 
 /-- the table is in key order and the cached versions are exactly the versions in the table -/
@@ -98,215 +104,204 @@ theorem put_sim {s : Redb} (h : Inv s) (k : Key) (x : Val) :
   · exact ⟨rfl, rfl, h⟩
   · exact putV_sim h _ _ _
 
-/-! ### the `put_batch` loop -/
-
-/-- invariant of the loop after the entries `done` -/
-structure LoopInv (s : Redb) (done : List (Key × Rec)) (a : Acc) : Prop where
-  np : a.panicked = false
-  st : Sorted a.tab
-  ss : Sorted a.staged
-  each : ∀ k, (lookup a.staged k = none ∧ lookup a.tab k = lookup s.tab k) ∨
-      (∃ r, lookup a.tab k = some r ∧ lookup a.staged k = some r.1 ∧ (k, r) ∈ done ∧
-        (a.bad = false → ∀ r0, lookup s.tab k = some r0 → r0.1 < r.1))
-  /-- unless a mismatch was found, the staged table is what inserting all entries in order gives -/
-  seq : a.bad = false → ∀ k, lookup a.tab k = lookup (insertAll s.tab done) k
-  /-- unless a mismatch was found, every entry passed the memory store's test as well -/
-  okm : a.bad = false → done.all (entryOk s.tab) = true
+/-! ### the `put_batch` loop (after the F8 fix) -/
 
 theorem insertAll_snoc {α : Type} (t : AL α) (es : List (Key × α)) (e : Key × α) :
     insertAll t (es ++ [e]) = insert (insertAll t es) e.1 e.2 := by
   simp [insertAll, List.foldl_append]
 
-theorem loopInv_init (s : Redb) (h : Inv s) : LoopInv s [] ⟨s.tab, [], false, false⟩ :=
-  ⟨rfl, h.sorted, trivial, fun _ => Or.inl ⟨rfl, rfl⟩, fun _ _ => rfl, fun _ => rfl⟩
+/-- the part of the loop invariant that does not depend on the mismatch flag -/
+structure LoopBase (s : Redb) (a : Acc) : Prop where
+  np : a.panicked = false
+  st : Sorted a.tab
+  ss : Sorted a.staged
+  /-- a key with a (staged or cached) version is in the staged table: the `unwrap` cannot fire -/
+  dom : ∀ k, (olookup a.staged s.cache k).isSome = true → (lookup a.tab k).isSome = true
 
-/-- the insert branch of one iteration -/
-theorem loopInv_insert {s : Redb} {done : List (Key × Rec)} {a : Acc} (e : Key × Rec) (b : Bool)
-    (li : LoopInv s done a) (hb : a.bad = true → b = true)
-    (hnew : b = false → (∀ r0, lookup s.tab e.1 = some r0 → r0.1 < e.2.1)) :
-    LoopInv s (done ++ [e])
-      { a with bad := b, tab := insert a.tab e.1 e.2, staged := insert a.staged e.1 e.2.1 } := by
-  have hb' : b = false → a.bad = false := by
-    intro h; cases hbad : a.bad with
-    | false => rfl
-    | true => rw [hb hbad] at h; cases h
-  refine ⟨li.np, sorted_insert _ _ li.st, sorted_insert _ _ li.ss, ?_, ?_, ?_⟩
-  · intro k
-    by_cases hk : e.1 = k
-    · right; subst hk
-      exact ⟨e.2, lookup_insert_self _ _ _, lookup_insert_self _ _ _, by simp, hnew⟩
-    · rcases li.each k with ⟨h1, h2⟩ | ⟨r, h1, h2, h3, h4⟩
-      · left; simp only [lookup_insert_ne _ _ hk]; exact ⟨h1, h2⟩
-      · right; refine ⟨r, ?_, ?_, by simp [h3], fun hbf => h4 (hb' hbf)⟩
-        · simp only [lookup_insert_ne _ _ hk]; exact h1
-        · simp only [lookup_insert_ne _ _ hk]; exact h2
-  · intro hbf k
-    simp only [insertAll_snoc, lookup_insert, li.seq (hb' hbf) k]
-  · intro hbf
-    simp only [List.all_append, li.okm (hb' hbf), List.all_cons, List.all_nil, Bool.and_true, Bool.true_and]
-    rw [entryOk_iff]
-    intro r0 hr0
-    exact Or.inl (hnew hbf r0 hr0)
+theorem loopBase_init (s : Redb) (h : Inv s) : LoopBase s ⟨s.tab, [], false, false⟩ := by
+  refine ⟨rfl, h.sorted, trivial, ?_⟩
+  intro k hk
+  simp only [olookup, lookup, h.cache k] at hk
+  cases hl : lookup s.tab k with
+  | none => rw [hl] at hk; simp at hk
+  | some _ => rfl
 
-theorem loopInv_step {s : Redb} (h : Inv s) {done : List (Key × Rec)} {a : Acc} (e : Key × Rec)
-    (li : LoopInv s done a) : LoopInv s (done ++ [e]) (batchStep s.cache a e) := by
+theorem loopBase_insert {s : Redb} {a : Acc} (lb : LoopBase s a) (e : Key × Rec) (b : Bool) :
+    LoopBase s { a with bad := b, tab := insert a.tab e.1 e.2, staged := insert a.staged e.1 e.2.1 } := by
+  refine ⟨lb.np, sorted_insert _ _ lb.st, sorted_insert _ _ lb.ss, ?_⟩
+  intro k hk
+  simp only [Mem.olookup_insert, lookup_insert] at hk ⊢
+  by_cases he : e.1 = k
+  · simp [he]
+  · simp only [he, if_false] at hk ⊢
+    exact lb.dom k hk
+
+theorem loopBase_step {s : Redb} {a : Acc} (lb : LoopBase s a) (e : Key × Rec) :
+    LoopBase s (batchStep s.cache a e) := by
   unfold batchStep
-  rw [h.cache e.1]
-  cases hl : lookup s.tab e.1 with
-  | none =>
-    simp only [Option.map_none]
-    have := loopInv_insert e a.bad li (fun hb => hb) (fun _ r0 hr0 => by rw [hl] at hr0; cases hr0)
-    simpa using this
-  | some r0 =>
-    obtain ⟨v0, x0⟩ := r0
-    simp only [Option.map_some]
+  cases hv : olookup a.staged s.cache e.1 with
+  | none => exact loopBase_insert lb e a.bad
+  | some v0 =>
+    simp only []
     split
-    · exact loopInv_insert e true li (fun _ => rfl) (fun hb => by cases hb)
+    · exact loopBase_insert lb e true
     · split
-      · rename_i hge heq
-        -- same version as the cached one: compare with the staged table
+      · have := lb.dom e.1 (by rw [hv]; rfl)
         cases hs : lookup a.tab e.1 with
-        | none =>
-          exfalso
-          rcases li.each e.1 with ⟨_, h2⟩ | ⟨r, h1, _⟩
-          · rw [hs, hl] at h2; cases h2
-          · rw [hs] at h1; cases h1
+        | none => rw [hs] at this; cases this
         | some r =>
           simp only []
-          have hmem : ∀ {b : Bool}, LoopInv s (done ++ [e]) { a with bad := b } → True := fun _ => trivial
-          by_cases hr : r = e.2
-          · simp only [hr, if_true]
-            refine ⟨li.np, li.st, li.ss, ?_, ?_, ?_⟩
-            · intro k
-              rcases li.each k with h1 | ⟨r', h1, h2, h3, h4⟩
-              · exact Or.inl h1
-              · exact Or.inr ⟨r', h1, h2, by simp [h3], h4⟩
-            · intro hbf k
-              simp only [insertAll_snoc, lookup_insert, ← li.seq hbf k]
-              split
-              · subst_vars; rw [hs]
-              · rfl
-            · intro hbf
-              simp only [List.all_append, li.okm hbf, List.all_cons, List.all_nil, Bool.and_true, Bool.true_and]
-              rw [entryOk_iff]
-              intro r0' hr0'
-              rw [hl] at hr0'; cases hr0'
-              rcases li.each e.1 with ⟨_, h2⟩ | ⟨r', h1, _, _, h4⟩
-              · rw [hs, hl] at h2; cases h2; exact Or.inr hr
-              · rw [hs] at h1; cases h1
-                have := h4 hbf _ hl
-                rw [hr] at this; simp at this; omega
-          · simp only [hr, if_false]
-            refine ⟨li.np, li.st, li.ss, ?_, ?_, ?_⟩
-            · intro k
-              rcases li.each k with h1 | ⟨r', h1, h2, h3, _⟩
-              · exact Or.inl h1
-              · exact Or.inr ⟨r', h1, h2, by simp [h3], fun hb => by simp at hb⟩
-            · intro hb; simp at hb
-            · intro hb; simp at hb
-      · rename_i hge hne
-        have := loopInv_insert e a.bad li (fun hb => hb)
-          (fun _ r0' hr0' => by rw [hl] at hr0'; cases hr0'; simp; omega)
-        simpa using this
+          split
+          · exact lb
+          · exact ⟨lb.np, lb.st, lb.ss, lb.dom⟩
+      · exact loopBase_insert lb e a.bad
 
-theorem loopInv_fold {s : Redb} (h : Inv s) (es done : List (Key × Rec)) (a : Acc)
-    (li : LoopInv s done a) : LoopInv s (done ++ es) (es.foldl (batchStep s.cache) a) := by
-  induction es generalizing done a with
-  | nil => simpa using li
-  | cons e es ih =>
-    have := ih (done ++ [e]) _ (loopInv_step h e li)
-    simpa [List.append_assoc] using this
+theorem batchStep_bad_mono (c : AL Nat) (a : Acc) (e : Key × Rec) (h : a.bad = true) :
+    (batchStep c a e).bad = true := by
+  unfold batchStep
+  repeat' split
+  all_goals first | exact h | rfl
 
-theorem loopInv_loop {s : Redb} (h : Inv s) (es : List (Key × Rec)) : LoopInv s es (batchLoop s es) := by
-  have := loopInv_fold h es [] _ (loopInv_init s h)
-  simpa [batchLoop] using this
+/-- invariant of the loop after the entries `done`, relative to the sequential reference -/
+structure LoopInv (s : Redb) (done : List (Key × Rec)) (a : Acc) : Prop where
+  base : LoopBase s a
+  /-- no mismatch so far: the reference accepted `done`, the staged table answers as the reference table,
+      and the staged-or-cached versions are the versions of the reference table -/
+  good : a.bad = false → ∃ T, Mem.seqRun s.tab done = some T ∧ (∀ k, lookup a.tab k = lookup T k) ∧
+      (∀ k, olookup a.staged s.cache k = (lookup T k).map (·.1))
+  /-- a mismatch was found: the reference refuses `done` as well -/
+  badc : a.bad = true → Mem.seqRun s.tab done = none
 
-/-- a redb batch never hits the `unwrap` panic, leaves the store untouched when refused, and when
-    accepted produces exactly the table that inserting the entries in order produces — which the
-    memory store would have accepted too -/
-theorem batch_spec {s : Redb} (h : Inv s) (es : List (Key × Rec)) :
-    ((batch s es).2 = .mismatch ∧ (batch s es).1 = s) ∨
-    ((batch s es).2 = .ok ∧ (batch s es).1.tab = insertAll s.tab es ∧ Inv (batch s es).1 ∧
-      es.all (entryOk s.tab) = true) := by
-  have li := loopInv_loop h es
-  unfold batch
-  simp only [li.np, Bool.false_eq_true, if_false]
-  cases hb : (batchLoop s es).bad with
-  | true => left; simp
-  | false =>
-    right
-    simp only [Bool.false_eq_true, if_false]
-    have htab : (batchLoop s es).tab = insertAll s.tab es :=
-      sorted_ext li.st (sorted_insertAll _ h.sorted) (li.seq hb)
-    refine ⟨by first | rfl | trivial, htab, ⟨li.st, ?_⟩, li.okm hb⟩
-    intro k
-    simp only [lookup_insertAll_sorted _ _ _ li.ss]
-    rcases li.each k with ⟨h1, h2⟩ | ⟨r, h1, h2, _, _⟩
-    · simp only [h1, h2, h.cache k]
-    · simp only [h1, h2, Option.map_some]
+theorem loopInv_init (s : Redb) (h : Inv s) : LoopInv s [] ⟨s.tab, [], false, false⟩ :=
+  ⟨loopBase_init s h, fun _ => ⟨s.tab, rfl, fun _ => rfl, fun k => by simp [olookup, lookup, h.cache k]⟩,
+   fun hb => by cases hb⟩
 
-/-- with pairwise distinct keys in the batch the two acceptance tests coincide -/
-theorem batch_bad_distinct {s : Redb} (h : Inv s) (es done : List (Key × Rec)) (a : Acc)
-    (li : LoopInv s done a) (hd : ((done ++ es).map (·.1)).Nodup)
-    (hbad : a.bad = !(done.all (entryOk s.tab))) :
-    (es.foldl (batchStep s.cache) a).bad = !((done ++ es).all (entryOk s.tab)) := by
-  induction es generalizing done a with
-  | nil => simpa using hbad
-  | cons e es ih =>
-    have hnot : ∀ r, (e.1, r) ∉ done := by
-      intro r hr
-      rw [List.map_append, List.nodup_append] at hd
-      have := hd.2.2 e.1 (List.mem_map.2 ⟨(e.1, r), hr, rfl⟩) e.1 (by simp)
-      exact this rfl
-    have hsame : lookup a.tab e.1 = lookup s.tab e.1 := by
-      rcases li.each e.1 with ⟨_, h2⟩ | ⟨r, _, _, h3, _⟩
-      · exact h2
-      · exact absurd h3 (hnot r)
-    have hstep : (batchStep s.cache a e).bad = !((done ++ [e]).all (entryOk s.tab)) := by
-      simp only [List.all_append, List.all_cons, List.all_nil, Bool.and_true, Bool.not_and, ← hbad]
-      unfold batchStep entryOk
-      rw [h.cache e.1, hsame]
-      cases hl : lookup s.tab e.1 with
-      | none => simp
+theorem loopInv_step {s : Redb} {done : List (Key × Rec)} {a : Acc} (e : Key × Rec)
+    (li : LoopInv s done a) : LoopInv s (done ++ [e]) (batchStep s.cache a e) := by
+  refine ⟨loopBase_step li.base e, ?_, ?_⟩
+  · intro hb'
+    cases hb : a.bad with
+    | true => rw [batchStep_bad_mono _ _ _ hb] at hb'; cases hb'
+    | false =>
+      obtain ⟨T, hT, htab, hver⟩ := li.good hb
+      have hins : ∀ r : Rec, (∀ k, lookup (insert a.tab e.1 r) k = lookup (insert T e.1 r) k) ∧
+          (∀ k, olookup (insert a.staged e.1 r.1) s.cache k = (lookup (insert T e.1 r) k).map (·.1)) := by
+        intro r
+        refine ⟨fun k => by rw [lookup_insert, lookup_insert, htab k], fun k => ?_⟩
+        rw [Mem.olookup_insert, lookup_insert, hver k]
+        split <;> rfl
+      revert hb'
+      rw [Mem.seqRun_snoc, hT]
+      simp only []
+      rw [Mem.putV?_eq]
+      unfold batchStep
+      rw [hver e.1]
+      cases hl : lookup T e.1 with
+      | none =>
+        intro _
+        exact ⟨insert T e.1 e.2, rfl, (hins e.2).1, (hins e.2).2⟩
       | some r0 =>
         obtain ⟨v0, x0⟩ := r0
         simp only [Option.map_some]
         split
-        · simp
+        · intro hb'; cases hb'
         · split
-          · rename_i heq
-            obtain ⟨k, v, x⟩ := e
-            simp only at heq
-            subst heq
-            by_cases hx : x0 = x
-            · subst hx; simp
-            · have : ¬ ((v, x0) = (v, x)) := by simp [hx]
-              simp [hx, this]
-          · simp
-    have := ih (done ++ [e]) _ (loopInv_step h e li) (by simpa [List.append_assoc] using hd) hstep
+          · rename_i hlt heq
+            have hs : lookup a.tab e.1 = some (v0, x0) := by rw [htab e.1, hl]
+            rw [hs]
+            simp only []
+            by_cases hx : x0 = e.2.2
+            · have : (v0, x0) = e.2 := by
+                cases e with | mk k r => cases r; simp_all
+              rw [if_pos this, if_pos hx]
+              intro _
+              exact ⟨T, rfl, htab, hver⟩
+            · have : ¬ ((v0, x0) = e.2) := by
+                intro h'; apply hx; rw [← h']
+              simp only [this, if_false]
+              intro hb'; cases hb'
+          · intro _
+            exact ⟨insert T e.1 e.2, rfl, (hins e.2).1, (hins e.2).2⟩
+  · intro hb'
+    cases hb : a.bad with
+    | true => rw [Mem.seqRun_snoc, li.badc hb]
+    | false =>
+      obtain ⟨T, hT, htab, hver⟩ := li.good hb
+      revert hb'
+      rw [Mem.seqRun_snoc, hT]
+      simp only []
+      rw [Mem.putV?_eq]
+      unfold batchStep
+      rw [hver e.1]
+      cases hl : lookup T e.1 with
+      | none => intro hb'; simp only [Option.map_none] at hb'; rw [hb] at hb'; cases hb'
+      | some r0 =>
+        obtain ⟨v0, x0⟩ := r0
+        simp only [Option.map_some]
+        split
+        · intro _; rfl
+        · split
+          · rename_i hlt heq
+            have hs : lookup a.tab e.1 = some (v0, x0) := by rw [htab e.1, hl]
+            rw [hs]
+            simp only []
+            by_cases hx : x0 = e.2.2
+            · have : (v0, x0) = e.2 := by
+                cases e with | mk k r => cases r; simp_all
+              simp only [this, if_true]
+              intro hb'; rw [hb] at hb'; cases hb'
+            · have : ¬ ((v0, x0) = e.2) := by
+                intro h'; apply hx; rw [← h']
+              simp only [this, hx, if_false]
+              intro _; first | rfl | trivial
+          · intro hb'; simp only [] at hb'; rw [hb] at hb'; cases hb'
+
+theorem loopInv_fold {s : Redb} (es done : List (Key × Rec)) (a : Acc)
+    (li : LoopInv s done a) : LoopInv s (done ++ es) (es.foldl (batchStep s.cache) a) := by
+  induction es generalizing done a with
+  | nil => simpa using li
+  | cons e es ih =>
+    have := ih (done ++ [e]) _ (loopInv_step e li)
     simpa [List.append_assoc] using this
 
-/-- `put_batch` with distinct keys: same decision and same table as the memory store -/
-theorem batch_sim {s : Redb} (h : Inv s) (es : List (Key × Rec)) (hd : (es.map (·.1)).Nodup) :
-    (batch s es).1.tab = (Mem.batch s.tab es).1 ∧ (batch s es).2 = (Mem.batch s.tab es).2 := by
-  have hbad := batch_bad_distinct h es [] _ (loopInv_init s h) (by simpa using hd) rfl
+theorem loopInv_loop {s : Redb} (h : Inv s) (es : List (Key × Rec)) : LoopInv s es (batchLoop s es) := by
+  have := loopInv_fold es [] _ (loopInv_init s h)
+  simpa [batchLoop] using this
+
+/-- the repaired redb `put_batch` = the sequence of `put_with_version` calls, all or nothing: it never
+    hits the `unwrap` panic, leaves table and cache untouched when the sequence is refused, and otherwise
+    ends with the table that inserting all entries in order gives, the invariant re-established -/
+theorem batch_spec {s : Redb} (h : Inv s) (es : List (Key × Rec)) :
+    (Mem.seqRun s.tab es = none ∧ batch s es = (s, .mismatch)) ∨
+    (∃ T, Mem.seqRun s.tab es = some T ∧ (batch s es).2 = .ok ∧
+      (batch s es).1.tab = insertAll s.tab es ∧ Inv (batch s es).1) := by
   have li := loopInv_loop h es
-  have hspec := batch_spec h es
-  simp only [List.nil_append] at hbad
-  change (batchLoop s es).bad = _ at hbad
-  unfold Mem.batch
-  unfold batch at hspec ⊢
-  simp only [li.np, Bool.false_eq_true, if_false] at hspec ⊢
-  cases hall : es.all (entryOk s.tab) with
-  | true =>
-    rw [hall] at hbad; simp only [Bool.not_true] at hbad
-    simp only [hbad, Bool.false_eq_true, if_false, if_true] at hspec ⊢
-    rcases hspec with ⟨h1, _⟩ | ⟨_, h2, _, _⟩
-    · cases h1
-    · exact ⟨h2, by first | rfl | trivial⟩
+  unfold batch
+  simp only [li.base.np, Bool.false_eq_true, if_false]
+  cases hb : (batchLoop s es).bad with
+  | true => left; exact ⟨li.badc hb, by simp⟩
   | false =>
-    rw [hall] at hbad; simp only [Bool.not_false] at hbad
-    simp [hbad]
+    right
+    obtain ⟨T, hT, htab, hver⟩ := li.good hb
+    simp only [Bool.false_eq_true, if_false]
+    have heq : (batchLoop s es).tab = insertAll s.tab es :=
+      sorted_ext li.base.st (sorted_insertAll _ h.sorted)
+        (fun k => by rw [htab k, Mem.seqRun_lookup (fun _ => rfl) hT k])
+    refine ⟨T, hT, by first | rfl | trivial, heq, ⟨li.base.st, ?_⟩⟩
+    intro k
+    show lookup (insertAll s.cache (batchLoop s es).staged) k = _
+    rw [lookup_insertAll_olookup _ _ _ li.base.ss, hver k, htab k]
+
+/-- `put_batch`: same decision and same table as the memory store, for every batch -/
+theorem batch_sim {s : Redb} (h : Inv s) (es : List (Key × Rec)) :
+    (batch s es).1.tab = (Mem.batch s.tab es).1 ∧ (batch s es).2 = (Mem.batch s.tab es).2 := by
+  rcases batch_spec h es with ⟨h1, h2⟩ | ⟨T, h1, h2, h3, _⟩
+  · rcases Mem.batch_spec s.tab es with ⟨_, m2⟩ | ⟨T', m1, _⟩
+    · rw [h2, m2]; exact ⟨rfl, rfl⟩
+    · rw [h1] at m1; cases m1
+  · rcases Mem.batch_spec s.tab es with ⟨m1, _⟩ | ⟨T', _, m2, _⟩
+    · rw [h1] at m1; cases m1
+    · rw [m2]; exact ⟨h3, h2⟩
 
 end Redb
 end VlsModel.KVV
